@@ -2,7 +2,7 @@
 # runs every quick check against every seeded worktree (PVC_REPO), 4 worktrees at a time; results in /tmp/seedmx/<id>.txt
 mkdir -p /tmp/seedmx
 run_one() {
-  id=$1; pfx=wt; [ "${id##*-}" = b ] && pfx=wt2; wt=/tmp/${pfx}_$(echo ${id%-*} | tr A-Z a-z)
+  id=$1; wt=/tmp/s/$id       # scratch worktree of /repo HEAD with seeded/$id/patch.diff applied (created by tools/seed_worktrees.sh, removed afterwards)
   mkdir -p /tmp/seedmx/ev_$id
   ( cd /verif; for i in 01 02 03 04 05 06 07 08 09 10 11 12 13 14 15 16 17 18 19 20; do
       r=$(PVC_REPO=$wt python3-vt -m pvc.check C$i --evidence /tmp/seedmx/ev_$id/C$i.json 2>&1 | grep -E "^pvc " | sed 's/.*exit=\([0-9]\).*/\1/')
